@@ -177,6 +177,14 @@ def gen_cases(rng, quick):
     cases.append(mk_case(rng, "POST", "/x", 10, [4, 6], cl_header=2 * L))
     cases.append(mk_case(rng, "POST", "/x", 3000, [1000, 2000], cl_header=3000))
     cases.append(mk_case(rng, "PUT", "/vmAgentLog", 3 * L, [L, 2 * L], cl_header=L))
+    if not quick:
+        # THOROUGH ONLY (~13 s each, run in parallel shards): slow but legitimate within-limit uploads, 13 pieces one second apart --
+        # a whole-body deadline on the body read would refuse them
+        for m, t, n, ch in (("PUT", "/vmAgentLog", 325 * 1024, None), ("POST", "/x", 52 * 1024, [4096]),
+                            ("POST", "/machine/?comp=telemetrydata", 200 * 1024, [65536])):
+            c = mk_case(rng, m, t, n, ch, key=key())
+            c["slow"] = 13
+            cases.append(c)
     # the 100 MiB class
     G = LARGE
     ex = lambda: rng.choice(EXEMPT_TARGETS)
@@ -209,7 +217,13 @@ def scenario_of(i, c):
             hs.append(("Content-Length", str(c["cl_header"])))
         hs.append(("Transfer-Encoding", "chunked"))
     head = e2e.http_request(c["method"], c["target"], hs)
-    rq = e2e.req(head, gen_body={"len": c["n"], "seed": c["seed"], "chunk_sizes": c["chunks"]}, timeout_ms=120000)
+    if c.get("slow"):
+        # the whole request as raw bytes, delivered in `slow` pieces one second apart (a slow but legitimate client)
+        raw = e2e.http_request(c["method"], c["target"], [h for h in hs if h[0] != "Content-Length"],
+                               body=e2e.gen_body_bytes(c["n"], c["seed"]), chunked=c["chunks"])
+        rq = e2e.req(raw, write_sizes=[len(raw) // c["slow"] + 1], write_pause_ms=1000, timeout_ms=120000)
+    else:
+        rq = e2e.req(head, gen_body={"len": c["n"], "seed": c["seed"], "chunk_sizes": c["chunks"]}, timeout_ms=120000)
     a = e2e.audit(e2e.WIRESERVER, uid=e2e.NOBODY_UID) if c["kind"] == "forbidden" else e2e.audit(e2e.WIRESERVER, uid=0)
     reqs = [rq]
     if c.get("follow"):
@@ -242,6 +256,61 @@ def observe(r):
 
 
 # ------------------------------------------------------------------------------------------
+# histories: uploads the CLIENT aborts mid-body, followed by small within-limit uploads
+# ------------------------------------------------------------------------------------------
+def abort_history(rng, k):
+    """exempt uploads of the 100 MiB class (declared or chunked) that the client drops after a few KB, two to four times, then small
+    within-limit exempt and ordinary uploads on fresh connections: the small ones must be accepted and relayed intact, nothing of the
+    aborted ones may reach a host (a quota / buffer that is not released on the failure path shows here)"""
+    conns, small = [], []
+    a = e2e.audit(e2e.WIRESERVER, uid=0)
+    for j in range(rng.randint(3, 4)):
+        m, t = rng.choice(EXEMPT_TARGETS[:3] + EXEMPT_TARGETS[4:])
+        chunked = rng.random() < 0.6
+        n = rng.choice([LARGE, LARGE, LARGE - 1, LARGE // 2 + 7])
+        hs = [("x-tag", "h%d-abort-%d" % (k, j))] + ([("Transfer-Encoding", "chunked")] if chunked else [("Content-Length", str(n))])
+        rq = e2e.req(e2e.http_request(m, t, hs), timeout_ms=20000,
+                     gen_body={"len": n, "seed": j, "chunk_sizes": [rng.choice([1024, 65536])] if chunked else None,
+                               "abort_after": rng.choice([2048, 8192, 70000])},
+                     ops_after=[{"op": "sleep_ms", "ms": 150}])
+        conns.append(e2e.conn([rq], audit=a))
+    for j in range(rng.randint(2, 4)):
+        m, t = rng.choice(EXEMPT_TARGETS[:3] + EXEMPT_TARGETS[4:] + ([("POST", "/x")] if j else []))
+        n, seed = rng.choice([1, 1000, 5000, LOW]), rng.randrange(256)
+        chunks = None if rng.random() < 0.5 else [rng.choice([7, 4096])]
+        tag = "h%d-small-%d" % (k, j)
+        hs = [("x-tag", tag)] + ([("Content-Length", str(n))] if chunks is None else [("Transfer-Encoding", "chunked")])
+        conns.append(e2e.conn([e2e.req(e2e.http_request(m, t, hs), gen_body={"len": n, "seed": seed, "chunk_sizes": chunks}, timeout_ms=60000)],
+                              audit=a))
+        small.append({"tag": tag, "method": m, "target": t, "n": n, "crc": e2e.gen_body_crc32(n, seed), "conn": len(conns) - 1,
+                      "chunks": chunks})
+    sc = e2e.scenario("c15-abort-history-%d" % k, conns, upstream_capture=1024, default_reply={"status": MOCK_STATUS},
+                      key=None if rng.random() < 0.5 else {"guid": "c15-h%d" % k, "key": "%064x" % rng.getrandbits(256)},
+                      scenario_timeout_ms=120000, drain_timeout_ms=20000)
+    return sc, small
+
+
+def judge_history(sc, small, r):
+    """the property on one history; returns failure descriptions"""
+    out = []
+    infos = [i for cs in r["upstream"].values() for c in cs for i in c.get("request_info", [])]
+    total = sum(c["nbytes"] for cs in r["upstream"].values() for c in cs)
+    accounted = 0
+    for x in small:
+        mine = [i for i in infos if ("x-tag: %s\r\n" % x["tag"]).encode() in i["head"]]
+        rs = r["connections"][x["conn"]]["responses"]
+        st = rs[0].get("status") if rs and rs[0].get("complete") else None
+        if st != MOCK_STATUS or len(mine) != 1 or mine[0]["body_len"] != x["n"] or mine[0]["body_crc32"] != x["crc"]:
+            out.append("%s %s with %d body bytes (within the limit) sent after uploads the client had aborted mid-body was not accepted "
+                       "and relayed intact: client status %s, host saw %s" % (
+                           x["method"], x["target"], x["n"], st, [(i["body_len"], i["body_crc32"]) for i in mine]))
+        accounted += sum(i["end"] - i["start"] for i in mine)
+    if total != accounted:
+        out.append("%d bytes reached a host that belong to no accepted upload (uploads aborted by the client must not be relayed)" % (total - accounted))
+    return out
+
+
+# ------------------------------------------------------------------------------------------
 def run(ctx):
     broken = rc.gen_consts_or_search(ctx)
     proofs_ok, detail = vplib.check_proofs(ctx)
@@ -264,6 +333,18 @@ def run(ctx):
         results[i] = r
     ctx.log("e2e: %d requests (%d in the 100 MiB class)" % (len(cases), len(bigs)))
 
+    # ---------------- histories with aborted uploads (one driver process each: process-wide state accumulates) ----------------
+    hist = [abort_history(rng, k) for k in range(2 if ctx.quick else 8)]
+    hres = e2e.run_scenarios(ctx, [sc for sc, _ in hist], timeout=900, shards=len(hist))
+    hist_failures = []
+    for (sc, small), r in zip(hist, hres):
+        if not r.get("ok") or r.get("panics"):
+            hist_failures.append({"case": {"scenario": e2e.jsonable(sc)}, "why": "history did not run: %s %s" % (r.get("error"), r.get("panics")), "impl": None})
+            continue
+        for why in judge_history(sc, small, r):
+            hist_failures.append({"case": {"scenario": e2e.jsonable(sc)}, "why": why, "impl": e2e.statuses(r)})
+    ctx.log("histories with client-aborted uploads: %d, %d failing" % (len(hist), len(hist_failures)))
+
     # ---------------- model ----------------
     exprs = []
     for c in cases:
@@ -279,7 +360,7 @@ def run(ctx):
     model = vplib.coq_eval(ctx, "From GPA Require Import Limit.", exprs, shard=40) if not broken else [None] * len(exprs)
 
     # ---------------- compare + property ----------------
-    disagreements, failures = [], []
+    disagreements, failures = [], list(hist_failures)
     outcomes = {}
     for i, (c, r, mo) in enumerate(zip(cases, results, model)):
         replay = {"scenario": e2e.jsonable(scenarios[i]), "case": {k: v for k, v in c.items() if k != "chunks"},
@@ -325,6 +406,9 @@ def run(ctx):
                      "impl": {k: v for k, v in observe(results[i]).items() if k != "relayed"}}
                     for i in ([0, len(cases) // 2] + bigs[:2]) if results[i] and results[i].get("ok")],
         "input_distribution": {"requests": len(cases), "class_100MiB": len(bigs), "outcomes": outcomes,
+                               "histories_with_client_aborted_uploads": len(hist),
+                               "small_uploads_after_aborted_ones": sum(len(sm) for _, sm in hist),
+                               "slow_uploads_13_pieces_1s_apart": sum(1 for c in cases if c.get("slow")),
                                "code_exempt_pairs": code_exempt_pairs()},
     })
     ctx.assumptions += [
@@ -336,6 +420,8 @@ def run(ctx):
         "the local /provision endpoint never reads the body: an undeclared oversize body there is answered 200 and nothing is "
         "relayed; the 4xx half of the property is applied to the relay path only (the no-relay half to everything)",
         "thorough tier runs every length of the 100 MiB class; the quick tier four of them",
+        "the QUICK tier cannot see a whole-body deadline on the body read (e.g. 10 s): slow but legitimate within-limit uploads "
+        "(13 pieces one second apart, ~13 s) are sent in the thorough tier only",
     ]
     verdict(ctx, proofs_ok, detail, disagreements, failures,
             corr_name="Limit.c15_case vs the service_fn limit layer + handler (client status, bytes at the mock hosts)")
